@@ -8,6 +8,7 @@ virtual time.  Labels (the only nondeterminism, see lean/AioModel/C13.lean):
   peer text <n> | ping | pong | close <code> | bad    the scripted peer's frame is delivered
   drop <0|1>                                          connection loss (clean EOF / with an OSError)
   pausew | resumew                                    transport write back-pressure
+  adv <ms>                                            virtual time passes (not beyond the next timer; only when nothing is ready)
   tick                                                run ONE ready callback; if none is ready, jump the
                                                       clock to the next timer and move the due timers to ready
 
@@ -202,6 +203,9 @@ class Sim:
         while loop._ready and loop._ready[0]._cancelled:
             loop._ready.popleft()
 
+    def _prune_all(self):
+        self._prune()
+
     def n_ready(self):
         return sum(1 for h in self.loop._ready if not h._cancelled)
 
@@ -356,6 +360,14 @@ class Sim:
             self._peer(lab[1:])
         elif k == "drop":
             self.tr.drop(ConnectionResetError("dropped") if lab[1] else None)
+        elif k == "adv":
+            self._prune_all()
+            if not self.n_ready():
+                heads = [h._when for h in self.loop._scheduled if not h._cancelled]
+                target = self.loop._vt + lab[1] / 1000
+                if heads:
+                    target = max(self.loop._vt, min(target, min(heads)))
+                self.loop._vt = target
         elif k == "pausew":
             if not self.proto._paused and not self.tr.closing:
                 self.proto.pause_writing()
@@ -489,14 +501,59 @@ def msg_token(m):
     return t.name
 
 
-def run_scenario(cfg, labels, *, settle_end=True, observer=None):
-    """returns dict(trace=[projection after set-up, then after each label], tie=bool, sim-derived facts)"""
+def run_scenario(cfg, labels, *, epilogue=False, max_ticks=400):
+    """Run the labels on the real objects.  With `epilogue`, the scenario is then driven to the end:
+    phase A = ticks until nothing is ready and no timer is armed; then the connection is dropped
+    (`drop.0`) and phase B = ticks until idle again.  The labels actually applied (including the
+    epilogue's) are returned so that the model can replay exactly the same sequence.
+    returns dict(labels, trace=[projection after set-up, then after each label], a_end, tie)"""
     with Sim(cfg) as sim:
         sim.setup()
+        labels = [tuple(l) for l in labels]
         trace = [sim.proj()]
         for lab in labels:
-            sim.apply(tuple(lab))
+            sim.apply(lab)
             trace.append(sim.proj())
-            if observer is not None:
-                observer(sim, lab)
-        return {"trace": trace, "tie": sim.tie, "loop_excs": [str(c.get("message")) for c in sim.excs]}
+        a_end = None
+        complete = True
+        if epilogue:
+            def drain_ticks():
+                n = 0
+                while True:
+                    sim._prune()
+                    if not sim.loop._ready and not sim.loop._scheduled:
+                        return True
+                    if n >= max_ticks:
+                        return False
+                    sim.apply(("tick",)); labels.append(("tick",)); trace.append(sim.proj()); n += 1
+            complete = drain_ticks()
+            a_end = len(trace) - 1
+            sim.apply(("drop", 0)); labels.append(("drop", 0)); trace.append(sim.proj())
+            complete = drain_ticks() and complete
+        return {"labels": labels, "trace": trace, "a_end": a_end, "tie": sim.tie, "complete": complete,
+                "loop_excs": [str(c.get("message")) for c in sim.excs]}
+
+
+def run_fragment_wedge(cfg, size, seg):
+    """F9 at session level: one legal binary frame of `size` bytes delivered `seg` bytes per read while a
+    receive() is parked; the transport honours pause_reading().  Returns facts about the final state."""
+    with Sim(cfg) as sim:
+        sim.setup()
+        sim.apply(("call", 0, "recv"))
+        sim.settle()
+        data = frame(2, b"x" * size, masked=cfg["side"] == "server")
+        i = 0
+        reads = 0
+        while i < len(data) and not sim.tr.read_paused and not sim.tr.closing:
+            sim.proto.data_received(data[i:i + seg]); i += seg; reads += 1
+            if sim.loop._ready:
+                sim.settle()
+        # let every timer fire: nothing may remain that could still wake the reader
+        for _ in range(200):
+            sim._prune()
+            if not sim.loop._ready and not sim.loop._scheduled:
+                break
+            sim.tick()
+        return {"status": sim.task_status(0), "read_paused": sim.tr.read_paused, "undelivered": max(0, len(data) - i),
+                "reads": reads, "closed": bool(sim.ws.closed), "tr_closing": sim.tr.closing,
+                "idle": not sim.loop._ready and not sim.loop._scheduled}
